@@ -193,6 +193,11 @@ Definition check_C08x (c : case) : Z :=
       verdict (obs_same_class (model_parse 1 now_year inp pat) (c_out c)) (valid_out 1 (c_out c))
   | Op_fromstr, [1], [s] =>
       verdict (obs_same_class (model_fromstr 1 s) (c_out c)) (valid_out 1 (c_out c))
+  (* setters, clears and offset changes of a Time: the oracles of C09 / C10, and the result must lie inside the day *)
+  | (Op_time_set | Op_time_clear), _, _ =>
+      let v := CasesArith.check_C09 c in if (v =? V_MALFORMED) || valid_out 1 (c_out c) then v else Z.lor v 2
+  | (Op_time_set_offset | Op_time_as_offset), _, _ =>
+      let v := CasesArith.check_C10 c in if (v =? V_MALFORMED) || valid_out 1 (c_out c) then v else Z.lor v 2
   | _, _, _ => CasesArith.check_C08 c
   end.
 
